@@ -24,6 +24,7 @@ type SaveWinParams struct {
 	Absorbed bool `json:"absorbed"` // vb1 is advanced by a seqno-advanced event arriving inside the window
 	PreSave  bool `json:"presave"`  // one successful save before the window (documents already exist)
 	File     bool `json:"file"`
+	Reserved bool `json:"reserved"` // a library-internal-key document arrives on vb0 inside the window (absorbed, not dirtying)
 }
 
 func init() {
@@ -51,6 +52,7 @@ func init() {
 				}
 			}
 			out = append(out, Instance{Scenario: "c05_savewindow", Params: mustJSON(SaveWinParams{Savers: 1, Faults: true, PreSave: true}), Bound: 2, Shards: 4})
+			out = append(out, Instance{Scenario: "c05_savewindow", Params: mustJSON(SaveWinParams{Savers: 1, Reserved: true, PreSave: true}), Bound: 2, Shards: 4})
 			if tier == "thorough" {
 				for i := range out {
 					out[i].Bound = 3
@@ -113,12 +115,23 @@ func saveWindow(p SaveWinParams) {
 	}
 	var settles, saves []*ival
 	rawAck := ack
-	ack = func(vb uint16, seq uint64) {
+	// ack reports whether the acknowledgement advanced the position (TrackOffset(vb, seq) was issued);
+	// an acknowledgement at or below the position already reached is a no-op by design and creates no
+	// obligation to save
+	ackAdv := func(vb uint16, seq uint64) bool {
 		iv := &ival{vb: vb, seq: seq, a: tick()}
-		settles = append(settles, iv)
+		n := len(e.Cons.TrackSeq[vb])
 		rawAck(vb, seq)
 		iv.b = tick()
+		for _, t := range e.Cons.TrackSeq[vb][n:] {
+			if t == seq {
+				settles = append(settles, iv)
+				return true
+			}
+		}
+		return false
 	}
+	ack = func(vb uint16, seq uint64) { ackAdv(vb, seq) }
 	// lostBy explains why positions of vb above `stored` are not durable
 	lostBy := func(vb uint16, stored uint64) string {
 		for _, st := range settles {
@@ -134,10 +147,12 @@ func saveWindow(p SaveWinParams) {
 		return "no save was in flight when it was settled"
 	}
 	if p.PreSave {
-		ack(0, 1)
-		settle(0, 1)
-		ack(1, 1)
-		settle(1, 1)
+		if ackAdv(0, 1) {
+			settle(0, 1)
+		}
+		if ackAdv(1, 1) {
+			settle(1, 1)
+		}
 		e.Stream.Save()
 		for vb := uint16(0); vb < 2; vb++ {
 			if s, ok := e.StoredSeq(vb); !ok || s != 1 {
@@ -168,13 +183,16 @@ func saveWindow(p SaveWinParams) {
 	vrt.GoNamed("ackerA", func() {
 		defer wg.Done()
 		if !p.PreSave {
-			ack(0, 1)
-			settle(0, 1)
+			if ackAdv(0, 1) {
+				settle(0, 1)
+			}
 		}
-		ack(0, 2)
-		settle(0, 2)
-		ack(0, 3)
-		settle(0, 3)
+		if ackAdv(0, 2) {
+			settle(0, 2)
+		}
+		if ackAdv(0, 3) {
+			settle(0, 3)
+		}
 	})
 	vrt.GoNamed("ackerB", func() {
 		defer wg.Done()
@@ -190,12 +208,24 @@ func saveWindow(p SaveWinParams) {
 			return
 		}
 		if !p.PreSave {
-			ack(1, 1)
-			settle(1, 1)
+			if ackAdv(1, 1) {
+				settle(1, 1)
+			}
 		}
-		ack(1, 2)
-		settle(1, 2)
+		if ackAdv(1, 2) {
+			settle(1, 2)
+		}
 	})
+	absorbed := map[uint16]uint64{}
+	if p.Reserved {
+		wg.Add(1)
+		vrt.GoNamed("feeder", func() {
+			defer wg.Done()
+			c.Append(0, marker(4, 4), mut(4, "_connector:cbgo:other:doc"))
+			c.WaitIdle()
+			absorbed[0] = 4
+		})
+	}
 	for i := 0; i < p.Savers; i++ {
 		vrt.GoNamed(fmt.Sprintf("saver%d", i), func() {
 			defer wg.Done()
@@ -231,8 +261,12 @@ func saveWindow(p SaveWinParams) {
 	inWindow = false
 	// stored never ahead of settled
 	for vb := uint16(0); vb < 2; vb++ {
-		if s, ok := e.StoredSeq(vb); ok && s > settled[vb] {
-			vrt.Failf("vb%d stored %d ahead of settled %d", vb, s, settled[vb])
+		lim := settled[vb]
+		if absorbed[vb] > lim {
+			lim = absorbed[vb]
+		}
+		if s, ok := e.StoredSeq(vb); ok && s > lim {
+			vrt.Failf("vb%d stored %d ahead of settled %d", vb, s, lim)
 		}
 	}
 	// the quiet closing save (what dcp.close() performs in auto mode)
@@ -242,10 +276,15 @@ func saveWindow(p SaveWinParams) {
 		stored, _ := e.StoredSeq(vb)
 		tracked, _ := e.Tracked(vb)
 		out = append(out, fmt.Sprintf("vb%d stored=%d tracked=%d", vb, stored, tracked))
-		if tracked != settled[vb] {
-			vrt.Failf("vb%d tracked %d != settled %d", vb, tracked, settled[vb])
+		wantTracked := settled[vb]
+		if absorbed[vb] > wantTracked {
+			wantTracked = absorbed[vb]
 		}
-		if stored != settled[vb] {
+		_ = wantTracked // position equality is C04's business, not checked here
+		if stored > tracked {
+			vrt.Failf("vb%d stored %d ahead of tracked %d", vb, stored, tracked)
+		}
+		if stored < settled[vb] {
 			vrt.Failf("after the closing save vb%d stored=%d but settled=%d (settled progress left unpersisted): %s", vb, stored, settled[vb], lostBy(vb, stored))
 		}
 	}
